@@ -332,6 +332,49 @@ Definition check_big (input output : J) : verdict :=
   | _ => malformed
   end.
 
+(* builder construction sequences: in = [which, ctor, setters, script]; the closure makes the
+   clock advance (elapsed = 1 ns), a timeout is 1 h (tmode 0) or zero (tmode 1).
+   model: builder_run / executor_run on the decoded setter list;
+   reference: scan the list from the end for the last [0, b] and the last [1, m] *)
+Definition dec_setter (j : J) : option setter :=
+  match j with
+  | JL [JI 0; JI b] => if 0 <=? b then Some (SetRetry (cfg0 (Z.to_N b))) else None
+  | JL [JI 1; JI m] => if m =? 0 then Some (SetTimeout hour_ns)
+                       else if m =? 1 then Some (SetTimeout 0%N) else None
+  | _ => None
+  end.
+Definition raw_setter (j : J) : option (Z * Z) :=
+  match j with JL [JI f; JI v] => Some (f, v) | _ => None end.
+
+Definition check_bseq (input output : J) : verdict :=
+  match input with
+  | JL [JI which; JI ctor; JL jss; jscript] =>
+      match omap dec_setter jss, omap raw_setter jss, jints jscript with
+      | Some ss, Some raw, Some s =>
+          if negb (forallb sym_ok s && (0 <=? which) && (which <=? 1) && (0 <=? ctor) && (ctor <=? 1))
+          then malformed else
+          match jints output with
+          | Some code =>
+              let op := script_op s in
+              let m := code_of_run (if which =? 0 then builder_run (-1) ss 1 op 0
+                                    else executor_run (-1) ss 1 op 0) in
+              let lastb := find (fun p => fst p =? 0) (rev raw) in
+              let lastt := find (fun p => fst p =? 1) (rev raw) in
+              let '(a, sym) := match lastb with
+                               | Some (_, b) => ref_retry (Z.to_N b) s 0
+                               | None => (1%nat, nth 0 s 0)
+                               end in
+              let zero_timeout := match lastt with Some (_, tm) => tm =? 1 | None => false end in
+              let r := if (sym =? 0) && zero_timeout then [Z.of_nat a; 2; 0]
+                       else [Z.of_nat a; sym; Z.of_nat a] in
+              ok_verdict (zlist_eqb code m) (zlist_eqb code r)
+          | None => bad_out output
+          end
+      | _, _, _ => malformed
+      end
+  | _ => malformed
+  end.
+
 Definition check_batch (input output : J) : verdict :=
   match input with
   | JL [JI api; JI n; JI size; JI fail; JB dup; JB par; JI errsym] =>
@@ -461,6 +504,7 @@ Definition check_C18 (kind : string) (input output : J) : verdict :=
   if String.eqb kind "rrow" then check_retry true input output
   else if String.eqb kind "rbucket" then check_retry false input output
   else if String.eqb kind "rbig" then check_big input output
+  else if String.eqb kind "bseq" then check_bseq input output
   else if String.eqb kind "batch" then check_batch input output
   else if String.eqb kind "page" then check_page input output
   else if String.eqb kind "timeout" then check_timeout input output
